@@ -8,6 +8,8 @@ NOTE = ("Trusted: z3, CPython, the symnp NumPy model (conformance-tested against
 CLAIMS = {
  'C01': "For every structural case in the bound (0-4 dims, axis lengths 1-4, every index kind per dimension, every spelling) the real indexing code runs symbolically over all label orders, all queried labels (present or absent), mask bits, tolerances and data; z3 discharges 'result == cells at the looked-up labels, IndexError iff a label is absent' on every path.",
  'C03': "For every index form of C01/C02 (1-3 dims, scalars, lists, masks, slices, dicts, full N-d masks, positional), scalar / array / broadcast right-hand sides, both inplace settings and all (array kind, assigned kind) pairs among bool/int/float/object/str, the real assignment code runs symbolically; z3 discharges 'exactly the addressed cells hold the assigned values, everything else (cells, labels, dims, attrs, original when inplace=False) is unchanged, read-back returns what was written'.",
+ 'C04': "For every pair of dimension lists drawn from a pool (0-2 dims per operand in the quick tier, every overlap pattern and order), 1-3 labels per shared axis, int/float/str label kinds and the six operators, the real operator / align / broadcast code runs symbolically over all label values of both operands (equal, nested, overlapping, disjoint, any order) and all data; z3 discharges 'dims = a.dims + new dims of b, shared axes = set union each once, cell = a op b where both defined else NaN'; scalar, 0-d and ndarray operands in both orders.",
+ 'C06': "For 1-3 input arrays (and a Dataset among them) with every dimension-overlap pattern, 0-3 labels per axis, join in {outer, inner}, sort in {False, True}, axis=None or a name, align() runs symbolically over all label values and data; z3 discharges 'identical axes on shared dims, label set = union / intersection each once, sorted-direction rule, own data at own labels and NaN elsewhere, foreign dims and inputs untouched'.",
  'C07': "For every structural case (axis length 1-4, 0-3 new labels, axis position in 1-3 dims, list/ndarray/Axis argument, fill value, raise_error, method) reindex_axis / reindex_like run symbolically over all old label orders and all new labels (subset, superset, disjoint, permuted, repeated); z3 discharges 'axis == new labels, slice at a new label == old slice if present else fill'.",
  'C02': "For every structural case (axis length 0-5, direction, step, open/closed bounds, label kind, neighbouring index kinds) the real slicing code is executed symbolically over all label / bound / data values and z3 discharges the inclusive-box obligation on every path.",
 }
